@@ -134,7 +134,8 @@ def gen(rng, i, tier):
     else:
         form = "plain"
     return {"kind": kind, "z": z, "table": tab, "qseed": rng.randrange(1 << 30), "const": const,
-            "nq": 40 if tier == "quick" else 60, "axis_form": form, "numtype": numtype, "one_object": i % 3 != 0}
+            "nq": 40 if tier == "quick" else 60, "axis_form": form, "numtype": numtype, "one_object": i % 3 != 0, "plot_first": i % 4 == 1,
+            "plot3d": i % 8 == 1}
 
 
 def directed():
@@ -267,6 +268,21 @@ def run(ctx, case):
     if st != "ok":
         raise RuntimeError("well-conditioned table rejected: %s" % H.exc_sig(comp))
     qs = queries(rng, tab, case["nq"])
+    if case.get("one_object", True) and case.get("plot_first"):
+        # the table is PLOTTED (System.plot_interp) before the component has ever been looked up
+        import matplotlib.pyplot as plt
+
+        def _plot():
+            so_ = ns.System("plot", ns.KINDS["Source"]("S", vo=5.0))
+            so_.add_comp("S", comp=comp)
+            so_.add_comp("X", comp=ns.KINDS["ILoad"]("L", ii=0.1))
+            r = so_.plot_interp("X", plot3d=case.get("plot3d", False))
+            plt.close("all")
+            return r
+
+        with H.quiet():
+            stp, _r = H.call(_plot)
+        ctx.count("probe", "table plotted before the first lookup" + ("" if stp == "ok" else " (plot raised %s)" % type(_r).__name__))
     nq_out = 0
     C = M.COLS
     for io, vi, a, b in qs:
